@@ -142,6 +142,15 @@ class Ref:
         if o == "N":
             S[op[1]] = Node()
             return "h0"
+        if o == "T":
+            n = S.get(op[1])
+            if n is None:
+                return "k"
+            if n.kind == "E":
+                return "r-2"
+            n.kind, n.data = "T", op[2][:op[3]]
+            self.touch(n)
+            return "r0"
         if o in "ntsiofyda":
             n = S.get(op[1])
             if n is None:
@@ -327,6 +336,8 @@ def dec_prog(line):
             ops.append((o, int(f[1]), unhx(f[2])))
         elif o == "a":
             ops.append((o, int(f[1]), unhx(f[2]), unhx(f[3])))
+        elif o == "T":
+            ops.append((o, int(f[1]), unhx(f[2]), int(f[3])))
         elif o in ("c", "C", "R"):
             ops.append((o, int(f[1]), int(f[2])))
         elif o == "E":
@@ -786,6 +797,107 @@ def gen_cases(chk):
         b.ops.append(("c", root, b.textnode(bytes([c, c]))))
         b.ops.append(("P", root))
         add(b.ops, "every-byte")
+    # --- 7b. overwriting existing values: shorter / equal length / longer / empty, several times in a row, through
+    #         every setter (set_text, set_text_with_size, set_name, set_attribute and the set_ns/id/to/from/type
+    #         shorthands), before and after the node is attached, rendered and dumped after every step
+    def resized(old, how):
+        n = len(old)
+        if how == "empty":
+            return b""
+        if how == "shorter":
+            m = rng.randrange(0, n) if n else 0
+        elif how == "shorter1":
+            m = max(n - 1, 0)
+        elif how == "equal":
+            m = n
+        elif how == "longer1":
+            m = n + 1
+        else:
+            m = n + rng.randrange(1, 40)
+        base = rng.choice([b"second", b"xy", b"0123456789" * 5, g.chars(m + 1, True)])
+        out = (base * (m // max(len(base), 1) + 1))[:m]
+        try:
+            out.decode("utf-8")
+        except UnicodeDecodeError:
+            out = (b"abcdefghij" * (m // 10 + 1))[:m]
+        return out
+    hows = ["empty", "shorter", "shorter1", "equal", "longer1", "longer"]
+    firsts = [b"first and rather long text", b"a", b"", b"0123456789abcdef" * 8]
+    for first in firsts:
+        for h1 in hows:
+            for h2 in (["shorter", "equal", "longer"] if not thorough else hows):
+                for setter2 in ("t", "T"):
+                    b = Builder(g)
+                    root = b.elem(b"m")
+                    t = b.textnode(first) if rng.random() < 0.7 else None
+                    if t is None:
+                        t = b.new()
+                        b.ops.append(("T", t, first + b"junk", len(first)))
+                    cur = first
+                    attached = rng.random() < 0.5
+                    if attached:
+                        b.ops.append(("c", root, t))
+                    b.ops += [("D", t), ("P", root)]
+                    for how, setter in ((h1, rng.choice("tT")), (h2, setter2)):
+                        cur = resized(cur, how)
+                        if setter == "t":
+                            b.ops.append(("t", t, cur))
+                        else:
+                            b.ops.append(("T", t, cur + rng.choice([b"", b"tail", b"<&>"]), len(cur)))
+                        b.ops += [("D", t), ("P", t), ("P", root)]
+                    if not attached:
+                        b.ops += [("c", root, t), ("P", root), ("D", root)]
+                    cp = b.next
+                    b.next += 1
+                    b.ops += [("C", cp, root), ("P", cp)]
+                    add(b.ops, "overwrite-text")
+    for i in range(6000 if thorough else 400):
+        b = Builder(g)
+        root = b.elem(g.name())
+        ch = b.elem(g.name())
+        t = b.textnode(g.text(False))
+        b.ops += [("c", ch, t), ("c", root, ch)]
+        vals = {}
+        for _ in range(rng.randrange(3, 12)):
+            tgt = rng.choice([root, ch])
+            x = rng.random()
+            how = rng.choice(hows)
+            if x < 0.25:
+                key = ("text", t)
+                new = resized(vals.get(key, b"some text to start with"), how)
+                if not legal_chars(new, False):
+                    new = b"x" * len(new)
+                vals[key] = new
+                if rng.random() < 0.5:
+                    b.ops.append(("t", t, new))
+                else:
+                    b.ops.append(("T", t, new + rng.choice([b"", b"zzz"]), len(new)))
+            elif x < 0.45:
+                key = ("name", tgt)
+                new = resized(vals.get(key, b"name"), how)
+                new = bytes(c if chr(c) in NAME_START else ord("n") for c in new) or b"n"
+                vals[key] = new
+                b.ops.append(("n", tgt, new))
+            elif x < 0.8:
+                k = rng.choice([b"k", b"key2", b"id", b"to", b"from", b"type", b"a", b"i"])
+                key = ("attr", tgt, k)
+                new = resized(vals.get(key, b"a value of some length"), how)
+                vals[key] = new
+                b.attr(tgt, k, new)
+            else:
+                key = ("attr", tgt, XMLNS)
+                new = resized(vals.get(key, b"urn:some:namespace"), how) or b"u"
+                vals[key] = new
+                b.attr(tgt, XMLNS, new)
+            if rng.random() < 0.6:
+                b.ops.append(("P", root))
+            if rng.random() < 0.2:
+                b.ops.append(("D", root))
+        b.ops += [("P", root), ("D", root)]
+        cp = b.next
+        b.next += 1
+        b.ops += [("C", cp, root), ("P", cp)]
+        add(b.ops, "overwrite-any")
     # --- 8. API misuse (the error returns; nothing may crash)
     for i in range(5000 if thorough else 60):
         b = Builder(g)
@@ -795,8 +907,11 @@ def gen_cases(chk):
             x = rng.random()
             if x < 0.2:
                 b.ops.append(("n", h, g.name()))
-            elif x < 0.4:
+            elif x < 0.3:
                 b.ops.append(("t", h, g.text(False, 6)))
+            elif x < 0.4:
+                v = g.text(False, 6)
+                b.ops.append(("T", h, v + b"rest", len(v)))
             elif x < 0.55:
                 b.ops.append(("a", h, g.name(3), g.text(True, 4)))
             elif x < 0.65:
@@ -957,7 +1072,7 @@ def run(chk):
                 "bucket collisions, overwrites and deletions; nested namespace changes and repeats (exhaustive 4^3 chain); rendering of stanzas that are children of other stanzas (exhaustive 4^2 + random); "
                 "reply / reply_error (error types x RFC 6120 conditions, with/without text, with/without from/to) / "
                 "xmpp_error_new for every enumerator; exhaustive strings over {< > & \" ' a} as text and attribute; every byte "
-                "1..255; adjacent / empty / white-space text; API misuse. non-trivial = distinct program with at least one "
+                "1..255; adjacent / empty / white-space text; every setter applied again to a value that exists already (shorter / equal / longer / empty, set_text and set_text_with_size, set_name, set_attribute and shorthands, set_ns), rendered after every step; API misuse. non-trivial = distinct program with at least one "
                 "successful render of an element")
     chk.assumptions = [
         "libxml2 2.9.14 (xmlReadMemory, namespace-aware, stream wrapper element) is the independent reader of the oracle",
